@@ -95,6 +95,21 @@ func NewEngine(repo string, specDir string) (*Engine, error) {
 	return e, nil
 }
 
+// clauseActive: a clause restricted to properties ("ensures [C01] ...") is an obligation of, and an
+// assumption at call sites under, those properties only; the developer commands (no current
+// property) see every clause.
+func (e *Engine) clauseActive(c Clause) bool {
+	if len(c.Props) == 0 || e.curProp == "" {
+		return true
+	}
+	for _, p := range c.Props {
+		if p == e.curProp {
+			return true
+		}
+	}
+	return false
+}
+
 func (e *Engine) inModule(f *ssa.Function) bool {
 	p := pkgOf(f)
 	return p != nil && strings.HasPrefix(p.Path(), modulePath)
@@ -291,6 +306,9 @@ func (x *FnCtx) verifyBody() {
 	_, resNames := x.paramBindings(fn.Signature, nil, fn, nil)
 	ec := &EvalCtx{x: x, fn: fn, pkg: pkgOf(fn), cur: st, old: entry, params: params, oldA: entry.heap.A}
 	for i, rq := range ctr.Requires {
+		if !x.eng.clauseActive(rq) {
+			continue
+		}
 		g, facts := ec.boolWithFacts(rq.E)
 		if ec.err != nil {
 			x.errs = append(x.errs, fmt.Sprintf("requires#%d: %v", i+1, ec.err))
@@ -318,6 +336,9 @@ func (x *FnCtx) verifyBody() {
 		}
 		pc := &EvalCtx{x: x, fn: fn, pkg: pkgOf(fn), cur: r.st, old: entry, params: params, results: rtvs, resNames: resNames, oldA: entry.heap.A}
 		for i, en := range ctr.Ensures {
+			if !x.eng.clauseActive(en) {
+				continue
+			}
 			g, facts := pc.boolWithFacts(en.E)
 			if pc.err != nil {
 				x.errs = append(x.errs, fmt.Sprintf("ensures#%d: %v", i+1, pc.err))
@@ -330,6 +351,9 @@ func (x *FnCtx) verifyBody() {
 		// callee-side checks may mention the final values of locals
 		lc := &EvalCtx{x: x, fn: fn, pkg: pkgOf(fn), cur: r.st, old: entry, params: params, results: rtvs, resNames: resNames, oldA: entry.heap.A, frame: fr, paramsFirst: true}
 		for i, en := range ctr.Checks {
+			if !x.eng.clauseActive(en) {
+				continue
+			}
 			g := lc.boolTerm(en.E)
 			if lc.err != nil {
 				x.errs = append(x.errs, fmt.Sprintf("checks#%d: %v", i+1, lc.err))
@@ -345,7 +369,7 @@ func (x *FnCtx) verifyBody() {
 		x.coverOb("cover/return", all, tb.True())
 		// antecedents of implications must be reachable at some return
 		for i, en := range ctr.Ensures {
-			if en.E.Kind == "binary" && en.E.Name == "==>" {
+			if en.E.Kind == "binary" && en.E.Name == "==>" && x.eng.clauseActive(en) {
 				var cs []*Term
 				for _, r := range rets {
 					var rtvs []TV
@@ -390,6 +414,9 @@ func (x *FnCtx) paramValue(st *State, p *ssa.Parameter, isRecv bool) Value {
 			lo = 1
 		}
 		st.pc = tb.And(st.pc, tb.Le(tb.IntC(lo), v), tb.Lt(v, st.heap.A))
+		if ext := pointeeExtent(t); ext > 1 {
+			st.pc = tb.And(st.pc, tb.Implies(tb.Ne(v, tb.IntC(0)), tb.Le(tb.Add(v, tb.IntC(ext)), st.heap.A)))
+		}
 		if isStruct(u.Elem()) {
 			st.pc = tb.And(st.pc, tb.Implies(tb.Ne(v, tb.IntC(0)), tb.Le(tb.IntC(minEntryA/2), v)))
 		}
